@@ -41,7 +41,7 @@ def body(h):
     obs = []
     h.fact('cleared', False)
     for k in range(h.params['k']):
-        op = h.concretize(h.int('op%d' % k, 0, 2))
+        op = h.concretize(h.int('op%d' % k, 0, h.params.get('ops', 2)))
         if op == 0:
             c = h.int('key%d' % k, 1, 255)
             cb = seq1(h, c)
@@ -53,6 +53,9 @@ def body(h):
             want = ref.pop(0) if ref else []
             h.require('inkey-%d-oldest-first' % k, bytes_eq(list(got), want))
             obs.append(list(got))
+        elif op == 3:
+            # POKE 1050,PEEK(1050): POKE 1052,PEEK(1052) -- writing the pointers back changes nothing
+            buf.ring_set_boundaries(buf.start, buf.stop)
         else:
             buf.ring_set_boundaries(buf.stop, buf.stop)
             ref = []
@@ -124,6 +127,10 @@ def cases(tier):
         for pre in (0, 13):
             cs.append(Case('hist-n%d-p%d' % (n0, pre), body, params={'n0': n0, 'prefill': pre, 'k': k},
                            max_paths=400000, timeout_s=3000))
+    for n0, pre in ((13, 6), (3, 2), (15, 14)):
+        # pointer write-back in wrapped and unwrapped layouts (op 3 added to the alphabet)
+        cs.append(Case('hist-pokeback-n%d-p%d' % (n0, pre), body,
+                       params={'n0': n0, 'prefill': pre, 'k': 3, 'ops': 3}, max_paths=400000, timeout_s=3000))
     for n0, n in ((0, 0), (0, 15), (5, 3), (14, 15), (16, 1), (31, 2)):
         cs.append(Case('session-peek-n%d-k%d' % (n0, n), body_session_peek, params={'n0': n0, 'n': n},
                        max_fanout=100, timeout_s=900))
